@@ -293,3 +293,9 @@ def r6(ctx):
                    f"length = {v!r}", idx.loc(idx.func("_abnf:frame_buffer.recv_length").node))
     if okk < 2:
         raise AnalysisError("recv_length never decodes an extended length")
+
+
+@rule("R-C02-7", min_instances=4, title="every frame the protocol allows is yielded by recv_frame (no legal header/length combination is refused)")
+def r7(ctx):
+    from .c05 import _check
+    _check(ctx, "recv_frame", "idle", lambda kind, name: kind == "accept")
